@@ -1,4 +1,5 @@
 import PyYetiVerif.Model.ExpSeries
+import PyYetiVerif.Model.ExpSeriesDriver
 import PyYetiVerif.Model.SSModel
 import PyYetiVerif.Generated.PadeTables
 /-! Line protocol for C07.  Rationals travel as `n` or `n/d` (exact); matrices row-major.
@@ -17,10 +18,35 @@ import PyYetiVerif.Generated.PadeTables
     tustink hbits wbits                 → bits of the model's `k` evaluated at Float
     sim method N B n h steps A… B… C… D… u(0) … u(steps)   (each u an n-vector)
                                         → y(0) … y(steps) on the grid: exactly sampled response, x(0) = 0
+    dec kind n d4l d6l d4t d6t d8l d10l X…   (kind = int | ss; X = fl(A h) exactly)
+                                        → `m s0 s l3 l5 l7 l9 l13` three times (` | ` separated): all norm quantities
+                                           scaled by 1 − 1e-13 / 1 / 1 + 1e-13 (and `alpha` of `_ell` by 1 ∓ 1e-9)
+    geti2 pade luOK n emax X… Itest… I…  → `branch` three times: tolerances scaled by 1 − 1e-9 / 1 / 1 + 1e-9
+                                           (branch = pade3|pade5|pade7|pade9|direct|series:j|maxloops)
+    powloops n X…                        → final `j` of `expmint_pow`, three times (tol scaled likewise)
+    route norm1                          → 1 | 2 (getEPQ1 | getEPQ2)
+    ssattr h0 nops {c2d h method prewarp | d2c method prewarp}   (h0, prewarp: none | rational)
+                                        → per op `self` or `new h method prewarp`
     tab name                            → the generated list `name` as rationals
     padeval name_p name_q x             → p(x)/q(x) over Rat
 -/
 open PyYetiVerif PyYetiVerif.ExpSeries
+
+/-- driver-side sensitivity of the two power-series loops: the model's loop with the term size perturbed by
+`noise·max(|X|^k/k!)` (what floating-point products of cancelling entries can differ by).  `fixedE`: `_geti2`
+(`abs(E).max()` of the given `E`); `none`: `expmint_pow` (running sum). -/
+def loopNoise (X : QMat) (tol : Rat) (maxloops : Nat) (fixedE : Option Rat) (noise : Rat) : Nat :=
+  let Xa : QMat := ⟨X.num.absM, X.den⟩
+  let rec go (fuel j : Nat) (E term aterm : QMat) : Nat :=
+    match fuel with
+    | 0 => j
+    | f + 1 =>
+      let emax := match fixedE with | some e => e | none => E.maxAbs
+      if term.maxAbs + noise * aterm.maxAbs > tol * emax ∧ j < maxloops then
+        let c : Rat := 1 / ((j + 1 : Nat) : Rat)
+        go f (j + 1) (E.addInto term) ((term.mul X).smul c) ((aterm.mul Xa).smul c)
+      else j
+  go maxloops 1 (QMat.ident X.rows) X Xa
 
 def parseRat (s : String) : Option Rat :=
   match s.splitOn "/" with
@@ -267,6 +293,100 @@ def answer (line : String) : Option String := do
           x := rnd (((E.mul x).add (P.mul u)).add (Q.mul u1))
         return ys.reverse
       pure (" | ".intercalate out)
+  | "dec" :: kind :: n :: rest =>
+      let n ← n.toNat?
+      let xs ← parseRats rest
+      if xs.length < 6 then none
+      let (X, _) ← takeMat n n (xs.drop 6)
+      let th : Thetas :=
+        if kind = "ss" then
+          let l := Generated.PadeTables.ss_thresholds_double
+          ⟨l.getD 0 0, l.getD 1 0, l.getD 2 0, l.getD 3 0, Generated.PadeTables.ss_theta13⟩
+        else
+          let l := Generated.PadeTables.expmint_thresholds_double
+          ⟨l.getD 0 0, l.getD 1 0, l.getD 2 0, l.getD 3 0, Generated.PadeTables.expmint_theta13⟩
+      let one (f g : Rat) : String :=
+        let e : Etas := ⟨f * xs.getD 0 0, f * xs.getD 1 0, f * xs.getD 2 0, f * xs.getD 3 0, f * xs.getD 4 0, f * xs.getD 5 0⟩
+        let l3 := ellScaled g X 3; let l5 := ellScaled g X 5; let l7 := ellScaled g X 7; let l9 := ellScaled g X 9
+        let d := padeDecision th e l3 l5 l7 l9 fun s0 => ellScaled g (X.scalePow2 s0) 13
+        s!"{d.m} {d.s0} {d.s} {l3} {l5} {l7} {l9} {ellScaled g (X.scalePow2 d.s0) 13}"
+      let eps : Rat := 1 / 10 ^ 13
+      let del : Rat := 1 / 10 ^ 9
+      pure s!"{one (1 - eps) (1 - del)} | {one 1 1} | {one (1 + eps) (1 + del)}"
+  | "geti2" :: pade :: luOK :: n :: rest =>
+      let pade ← pade.toNat?; let luOK ← luOK.toNat?; let n ← n.toNat?
+      let xs ← parseRats rest
+      let emax ← xs.head?
+      let (X, xs) ← takeMat n n xs.tail
+      if xs.length < 2 * n * n then none
+      let it := xs.take (n * n)
+      let i1 := (xs.drop (n * n)).take (n * n)
+      let one (f : Rat) : String :=
+        let acc := allclose (f * Generated.PadeTables.geti2_allclose_rtol) (f * Generated.PadeTables.geti2_allclose_atol) it i1
+        let j := if pade ≤ 9 ∨ (luOK = 1 ∧ acc) then 0
+                 else if f = 1 then
+                   seriesLoops X emax Generated.PadeTables.geti2_series_tol Generated.PadeTables.geti2_series_maxloops
+                 else loopNoise X (f * Generated.PadeTables.geti2_series_tol) Generated.PadeTables.geti2_series_maxloops
+                        (some emax) ((1 - f) / 1000)
+        match geti2Branch pade (luOK = 1) acc j Generated.PadeTables.geti2_series_maxloops with
+        | .pade m => s!"pade{m}"
+        | .direct => "direct"
+        | .series j => s!"series:{j}"
+        | .maxloops => "maxloops"
+      let del : Rat := 1 / 10 ^ 9
+      pure s!"{one (1 - del)} | {one 1} | {one (1 + del)}"
+  | "powloops" :: n :: rest =>
+      let n ← n.toNat?
+      let xs ← parseRats rest
+      let (X, _) ← takeMat n n xs
+      let del : Rat := 1 / 10 ^ 9
+      let f (g : Rat) :=
+        if g = 1 then powLoops X Generated.PadeTables.pow_tol Generated.PadeTables.pow_maxloops
+        else loopNoise X (g * Generated.PadeTables.pow_tol) Generated.PadeTables.pow_maxloops none ((1 - g) / 1000)
+      pure s!"{f (1 - del)} {f 1} {f (1 + del)}"
+  | ["route", x] =>
+      let x ← parseRat x
+      pure (toString (epqRoute Generated.PadeTables.epq_switch x))
+  | "ssattr" :: h0 :: nops :: rest =>
+      let optRat (t : String) : Option (Option Rat) := if t = "none" then some none else (parseRat t).map some
+      let meth (t : String) : Option SSModel.Method :=
+        match t with
+        | "zoh" => some .zoh | "zoha" => some .zoha | "foh" => some .foh | "tustin" => some .tustin | _ => none
+      let mname (m : Option SSModel.Method) : String :=
+        match m with
+        | some .zoh => "zoh" | some .zoha => "zoha" | some .foh => "foh" | some .tustin => "tustin" | none => "none"
+      let fo (x : Option Rat) : String := match x with | none => "none" | some r => fmtRat r
+      let h0 ← optRat h0
+      let nops ← nops.toNat?
+      -- the attribute logic does not look at the numbers: a formal 1×1 kernel set
+      let K : SSModel.Kernels Rat Rat :=
+        { expm := fun a h => 1 + a * h, int1 := fun _ h => h, fohP := fun _ h => h / 2, fohQ := fun _ h => h / 2,
+          logm := fun z h => (z - 1) / h, inv := fun x => 1 / x, kI := fun h _ => 2 / h, half := 1 / 2 }
+      let rec goSS (fuel : Nat) (ws : List String) (cur : SSModel.Sys Rat Rat) (tag : Nat) (acc : List String) :
+          Option (List String) :=
+        match fuel with
+        | 0 => some acc.reverse
+        | f + 1 =>
+          match ws with
+          | "c2d" :: h :: m :: pw :: ws =>
+            match parseRat h, meth m, optRat pw with
+            | some h, some m, some pw =>
+              let isSelf := SSModel.truthy cur.h
+              let nxt := cur.c2d K h m pw
+              let out := if isSelf then "self" else s!"new {fo nxt.h} {mname nxt.method} {fo nxt.prewarp}"
+              goSS f ws nxt (tag + 1) (out :: acc)
+            | _, _, _ => none
+          | "d2c" :: m :: pw :: ws =>
+            match meth m, optRat pw with
+            | some m, some pw =>
+              let isSelf := cur.h.isNone
+              let nxt := cur.d2c K m pw
+              let out := if isSelf then "self" else s!"new {fo nxt.h} {mname nxt.method} {fo nxt.prewarp}"
+              goSS f ws nxt (tag + 1) (out :: acc)
+            | _, _ => none
+          | _ => none
+      let outs ← goSS nops rest ⟨⟨-1, 1, 1, 0⟩, h0, none, none⟩ 0 []
+      pure (" | ".intercalate outs)
   | ["tab", name] =>
       let t ← tables.lookup name
       pure (" ".intercalate (t.map fmtRat))
